@@ -831,3 +831,155 @@ Proof.
 Qed.
 
 End Text.
+
+(* ================================================================ 5. PUT / REMOVE / DELETE from the text *)
+From KV Require Model.Write Model.Delete Model.ScanIO.
+From KV Require Proofs.PipelineWProofs Proofs.NoPanicPlanProofs.
+
+(* ---- Parser.Parse dispatches on the first token: the statement kind is the kind of that token *)
+Definition okshape (Q : StmtParser.stmt -> Prop) (r : ExprParser.pres StmtParser.stmt) : Prop :=
+  match r with ExprParser.POk s _ => Q s | _ => True end.
+
+Lemma okshape_bind {A} Q (r : ExprParser.pres A) k :
+  (forall a ts, okshape Q (k a ts)) -> okshape Q (ExprParser.bind r k).
+Proof. intros H. destruct r; cbn [ExprParser.bind okshape]; auto. Qed.
+
+Ltac shape_go :=
+  repeat first
+    [ exact I
+    | apply okshape_bind; intros
+    | match goal with
+      | |- okshape _ (match ?x with _ => _ end) => destruct x
+      | |- okshape _ (if ?c then _ else _) => destruct c
+      end
+    | progress cbn [okshape] ].
+
+Definition is_put (s : StmtParser.stmt) : Prop := match s with StPut _ _ => True | _ => False end.
+Definition is_remove (s : StmtParser.stmt) : Prop := match s with StRemove _ _ => True | _ => False end.
+Definition is_delete (s : StmtParser.stmt) : Prop := match s with StDelete _ _ _ _ => True | _ => False end.
+
+Lemma parse_put_shape ts : okshape is_put (parse_put ts).
+Proof. unfold parse_put. destruct ts; [exact I|]. shape_go. Qed.
+Lemma parse_remove_shape ts : okshape is_remove (parse_remove ts).
+Proof. unfold parse_remove. destruct ts; [exact I|]. shape_go. Qed.
+Lemma parse_delete_shape ts : okshape is_delete (parse_delete ts).
+Proof. unfold parse_delete. destruct ts; [exact I|]. shape_go. Qed.
+
+Definition kind_shape (k : PipelineW.wkind) (s : StmtParser.stmt) : Prop :=
+  match k with
+  | PipelineW.KPut => is_put s
+  | PipelineW.KRemove => is_remove s
+  | PipelineW.KDelete => is_delete s
+  | PipelineW.KOther => True
+  end.
+
+Lemma parse_statement_kind ts s :
+  parse_statement ts = SOk s -> kind_shape (PipelineW.head_kind ts) s.
+Proof.
+  unfold parse_statement, parse_with, parse_query, PipelineW.head_kind. cbv zeta.
+  destruct (trim_end_semis ts) as [|t ts1] eqn:Et; [discriminate|].
+  destruct (Token.tp t) eqn:Etp; cbn [kind_shape]; try exact (fun _ => I).
+  - pose proof (parse_put_shape (t :: ts1)) as H. destruct (parse_put (t :: ts1)); try discriminate.
+    intros E. injection E as <-. exact H.
+  - pose proof (parse_remove_shape (t :: ts1)) as H. destruct (parse_remove (t :: ts1)); try discriminate.
+    intros E. injection E as <-. exact H.
+  - pose proof (parse_delete_shape (t :: ts1)) as H. destruct (parse_delete (t :: ts1)); try discriminate.
+    intros E. injection E as <-. exact H.
+Qed.
+
+Section WriteText.
+Variable fo : fops.
+Variable re : bytes -> bytes -> Value.res bool.
+Hypothesis re_safe : forall p t, safe (re p t).
+Variable fmt_v : F fo -> string.
+
+Definition tclean' {A} (r : tres A) : Prop := match r with TPanic | TFuel => False | _ => True end.
+
+Lemma tclean'_bind {A B} (r : tres A) (f : A -> tres B) :
+  tclean' r -> (forall a, r = TOk a -> tclean' (f a)) -> tclean' (tbind r f).
+Proof. destruct r; cbn [tbind tclean']; auto. Qed.
+
+(* Parser.Parse's syntax phase on a write text: never out of fuel, never a nil dereference, and
+   the statement has the kind of the first token *)
+Lemma parsed_text_clean want q :
+  match PipelineW.parsed_text fo want q with
+  | TOk s => kind_shape (PipelineW.head_kind (lex q)) s
+  | TPanic | TFuel => False
+  | _ => True
+  end.
+Proof.
+  unfold PipelineW.parsed_text. cbv zeta. destruct (pc_oom fo q (lex q)); [exact I|].
+  destruct (negb _); [exact I|].
+  destruct (parse_statement_total (lex q)) as [(s & E)|(p & E)]; rewrite E; [|exact I].
+  apply parse_statement_kind. exact E.
+Qed.
+
+(* Optimizer.init for a write text: the checker returns the statement kind it was given (or a
+   SyntaxError, or "outside the model") *)
+Definition same_kind (s : StmtParser.stmt) (c : Checker.stmt) : Prop :=
+  match s, c with
+  | StPut _ _, Checker.SPut _ | StRemove _ _, Checker.SRemove _ | StDelete _ _ _ _, Checker.SDelete _ => True
+  | StSelect _, _ => True
+  | _, _ => False
+  end.
+
+Lemma front_clean want q :
+  match PipelineW.front fo want q with
+  | TOk (s, c2) => same_kind s c2 /\ kind_shape (PipelineW.head_kind (lex q)) s
+  | TPanic | TFuel => False
+  | _ => True
+  end.
+Proof.
+  unfold PipelineW.front. pose proof (parsed_text_clean want q) as Hp.
+  destruct (PipelineW.parsed_text fo want q) as [s|p|e| | |]; cbn [tbind] in *; try exact I; try contradiction.
+  destruct (to_check s) as [c|] eqn:Etc; [|exact I].
+  assert (Hc : cstmt_ok (fun _ => True) c) by (unfold cstmt_ok; apply Forall_forall; auto).
+  pose proof (build_check_ok fo (fun _ => True) c Hc) as H1.
+  destruct (Checker.build_check fo true c) as [c2|[x|x|]| |] eqn:Eb; cbn [okr of_check tbind] in *;
+    try exact I; try contradiction.
+  split; [|exact Hp].
+  destruct s as [x|p prs|p ks|p wp w lim]; cbn [to_check] in Etc; cbn [same_kind]; try exact I;
+    injection Etc as <-.
+  - rewrite (PipelineWProofs.build_check_put fo _ _ Eb). exact I.
+  - rewrite (PipelineWProofs.build_check_remove fo _ _ Eb). exact I.
+  - destruct (PipelineWProofs.build_check_delete fo _ _ Eb) as [-> _]. exact I.
+Qed.
+
+(* the plan's own evaluations never panic *)
+Lemma pairs_stat_no_panic : forall prs, PipelineW.pairs_stat fo re prs <> PipelineW.EsPanic.
+Proof.
+  induction prs as [|[ke ve] prs IH]; cbn [PipelineW.pairs_stat]; [discriminate|].
+  pose proof (eval_never_panics fo re re_safe "" "" ke) as Hk.
+  destruct (eval fo re "" "" ke) as [kx|e| |]; try discriminate; [|congruence].
+  pose proof (eval_never_panics fo re re_safe (to_string fo kx) "" ve) as Hv.
+  destruct (eval fo re (to_string fo kx) "" ve) as [vx|e| |]; try discriminate; [exact IH | congruence].
+Qed.
+
+Lemma keys_stat_no_panic : forall ks, PipelineW.keys_stat fo re ks <> PipelineW.EsPanic.
+Proof.
+  induction ks as [|ke ks IH]; cbn [PipelineW.keys_stat]; [discriminate|].
+  pose proof (eval_never_panics fo re re_safe "" "" ke) as Hk.
+  destruct (eval fo re "" "" ke) as [kx|e| |]; try discriminate; [exact IH | congruence].
+Qed.
+
+(* NewOptimizer(q).BuildPlan(store) for a PUT / REMOVE text *)
+Theorem write_plan_text_clean q : tclean' (PipelineW.write_plan_text fo re q).
+Proof.
+  unfold PipelineW.write_plan_text. pose proof (front_clean PipelineW.is_write_kind q) as Hf.
+  assert (Hk : forall s c2, PipelineW.front fo PipelineW.is_write_kind q = TOk (s, c2) ->
+                            PipelineW.is_write_kind (PipelineW.head_kind (lex q)) = true).
+  { unfold PipelineW.front, PipelineW.parsed_text. cbv zeta. intros s c2.
+    destruct (pc_oom fo q (lex q)); [discriminate|].
+    destruct (PipelineW.is_write_kind (PipelineW.head_kind (lex q))); [reflexivity | discriminate]. }
+  destruct (PipelineW.front fo PipelineW.is_write_kind q) as [[s c2]|p|e| | |] eqn:Ef; cbn [tbind tclean'] in *;
+    try exact I; try contradiction.
+  destruct Hf as [Hs Hshape]. specialize (Hk s c2 eq_refl).
+  destruct (PipelineW.head_kind (lex q)); try discriminate Hk; cbn [kind_shape] in Hshape;
+    destruct s; try contradiction; destruct c2; try contradiction; cbn [snd PipelineW.wplan_of PipelineW.plan_stat].
+  - pose proof (pairs_stat_no_panic pairs0) as Hn || pose proof (pairs_stat_no_panic pairs) as Hn.
+    destruct (PipelineW.pairs_stat fo re _); try exact I. congruence.
+  - pose proof (keys_stat_no_panic keys0) as Hn || pose proof (keys_stat_no_panic keys) as Hn.
+    destruct (PipelineW.keys_stat fo re _); try exact I. congruence.
+Qed.
+
+End WriteText.
